@@ -16,6 +16,7 @@ const (
 	SymNeg1    // uint64(-1)
 	SymNegBig  // uint64(-(2^62))
 	SymZero
+	SymFar // current revision + 1000
 )
 
 func kbFix(live []uint64, cur uint64, progs [][]KReq) {
@@ -43,6 +44,8 @@ func kbFix(live []uint64, cur uint64, progs [][]KReq) {
 				q.Rev = ^uint64(0) - (1 << 62) + 1
 			case SymZero:
 				q.Rev = 0
+			case SymFar:
+				q.Rev = cur + 1000
 			}
 			if q.Op == OpCreate {
 				q.Rev = 0
@@ -77,7 +80,7 @@ func genReq(r *Rand, nkeys int, t, j int, malformed int) KReq {
 	}
 	if q.Op != OpCreate {
 		if r.Intn(100) < malformed {
-			q.Sym = []int{SymHuge, SymNeg1, SymNegBig, SymNear}[r.Intn(4)]
+			q.Sym = []int{SymHuge, SymNeg1, SymNegBig, SymNear, SymFar}[r.Intn(5)]
 		} else {
 			q.Sym = []int{SymCorrect, SymCorrect, SymCorrect, SymStale, SymNear, SymZero}[r.Intn(6)]
 		}
@@ -127,7 +130,35 @@ func v(s string) []byte { return []byte(s) }
 func KBCorpus() []KBSpec {
 	o := [][2]int{}
 	_ = o
-	return []KBSpec{
+	cs := []KBSpec{}
+	// every path that allocates a revision, with an expected revision that makes the drift test fire
+	for _, init := range []int{InitNever, InitDeleted, InitCompacted, InitLive} {
+		for _, sym := range []int{SymFar, SymHuge, SymNeg1} {
+			for _, op := range []int{OpDelete, OpUpdate} {
+				cs = append(cs, KBSpec{Note: fmt.Sprintf("drift paths: %s of a key in state %s with expected revision class %d, then a create must become readable and watchable",
+					[]string{"create", "update", "delete"}[op], InitNames[init], sym),
+					Init: []int{init, InitNever}, Fix: kbFix,
+					Progs: [][]KReq{{{Op: op, Key: 0, Val: v("x"), Sym: sym}, {Op: OpCreate, Key: 1, Val: v("y")}}},
+					Pick:  FixedPick(nil)})
+			}
+		}
+	}
+	// the asynchronous repair of an uncertain write allocates a revision of its own
+	cs = append(cs,
+		KBSpec{Note: "async rewrite loses its compare-and-swap to a client update that lands between its read and its batch: the revision it allocated must still be resolved",
+			Init: []int{InitLive}, Fix: kbFix, Rewrite: true,
+			Progs: [][]KReq{{{Op: OpUpdate, Key: 0, Val: v("cl"), Sym: SymCorrect}}},
+			Pick:  FixedPick([][2]int{{1, 0}, {1, 0}, {0, 0}, {0, 0}, {1, 0}})},
+		KBSpec{Note: "async rewrite succeeds; a client update conditioned on the uncertain revision then fails",
+			Init: []int{InitLive}, Fix: kbFix, Rewrite: true,
+			Progs: [][]KReq{{{Op: OpUpdate, Key: 0, Val: v("cl"), Sym: SymCorrect}}},
+			Pick:  FixedPick([][2]int{{1, 0}, {1, 0}, {0, 0}, {1, 0}, {0, 0}})},
+		KBSpec{Note: "async rewrite finds the key already overwritten: nothing to repair, no revision allocated",
+			Init: []int{InitLive2}, Fix: kbFix, Rewrite: true,
+			Progs: [][]KReq{{{Op: OpDelete, Key: 0, Sym: SymCorrect}}},
+			Pick:  FixedPick([][2]int{{0, 0}, {0, 0}, {0, 0}, {1, 0}, {1, 0}})},
+	)
+	return append(cs, []KBSpec{
 		{Note: "two creators on one absent key, commits interleaved",
 			Init: []int{InitNever}, Fix: kbFix,
 			Progs: [][]KReq{{{Op: OpCreate, Val: v("a")}}, {{Op: OpCreate, Val: v("b")}}},
@@ -168,7 +199,7 @@ func KBCorpus() []KBSpec {
 			Init: []int{InitCompacted}, Fix: kbFix,
 			Progs: [][]KReq{{{Op: OpDelete, Sym: SymZero}}, {{Op: OpCreate, Val: v("n")}, {Op: OpDelete, Sym: SymNear}}},
 			Pick:  FixedPick([][2]int{{1, 0}, {0, 0}, {1, 0}, {0, 0}})},
-	}
+	}...)
 }
 
 // KBDrive runs corpus, random and (thorough) exhaustive cases and adds them to the writer.
@@ -206,6 +237,9 @@ func KBDrive(w *Writer, args Args, prof KBProfile) {
 		}
 		if !c.MarkerVisible && !c.Stalled {
 			w.Fail(ImplFailure{CaseID: w.Len(), What: "a create acknowledged at quiescence is not returned by List(0)", Case: c.JSON()})
+		}
+		if !c.MarkerWatched && !c.Stalled {
+			w.Fail(ImplFailure{CaseID: w.Len(), What: "a create acknowledged at quiescence never reached a watcher on its prefix", Case: c.JSON()})
 		}
 		triv := !c.Interleaved()
 		coq := c.Coq()
